@@ -1,7 +1,6 @@
 package props
 
 import (
-	"strings"
 	"bufio"
 	"encoding/binary"
 	"encoding/json"
@@ -10,6 +9,7 @@ import (
 	"os/signal"
 	"regexp"
 	"runtime"
+	"strings"
 	"testing"
 	"time"
 
@@ -207,6 +207,7 @@ func explore(t *testing.T, p Property, job Job, out *outWriter) {
 		runSeed := runSeedFor(job.VerifSeed, job.Property, idx)
 		r := simkit.NewRand(runSeed)
 		c := p.Generate(r.Derive("case"), job.Tier)
+		c = fixedCase(p, c)
 		spec := schedFor(p, r.Derive("sched"), c, lenHint)
 		activeRun.desc = fmt.Sprintf("%s seed=%d idx=%d", job.Property, job.VerifSeed, idx)
 		if job.Current != "" {
@@ -308,6 +309,7 @@ func explore(t *testing.T, p Property, job Job, out *outWriter) {
 		if job.DetEvery > 0 && i%job.DetEvery == 0 {
 			r2 := simkit.NewRand(runSeed)
 			c2 := p.Generate(r2.Derive("case"), job.Tier)
+			c2 = fixedCase(p, c2)
 			spec2 := schedFor(p, r2.Derive("sched"), c2, spec.LenHint)
 			spec2.LenHint = spec.LenHint
 			res2 := runOne(t, p, c2, spec2, runSeed)
@@ -550,4 +552,24 @@ func TestMeta(t *testing.T) {
 	real, stub := p.Components()
 	b, _ := json.Marshal(map[string]any{"level": p.Level(), "rule": p.Rule(), "nontrivial": p.Nontrivial(), "real": real, "stub": stub})
 	os.WriteFile(os.Getenv("VERIF_META_OUT"), b, 0o644)
+}
+
+// fixedCase is a debugging aid: with VERIF_FIXED_CASE=<file> every run uses
+// the case in that file and only the schedule varies.
+func fixedCase(p Property, c any) any {
+	fc := os.Getenv("VERIF_FIXED_CASE")
+	if fc == "" {
+		return c
+	}
+	b, err := os.ReadFile(fc)
+	if err != nil {
+		fmt.Fprintln(os.Stderr, err)
+		os.Exit(2)
+	}
+	nc := p.NewCase()
+	if err := json.Unmarshal(b, nc); err != nil {
+		fmt.Fprintln(os.Stderr, err)
+		os.Exit(2)
+	}
+	return nc
 }
